@@ -147,12 +147,26 @@ def in_seq_array_class(spec, depth_seq=0):
     return any(in_seq_array_class(k, d) for k in spec[2])
 
 
+DIM_RE = None
+
+
+def dims_parseable(spec):
+    """dimension names are printed verbatim (never quoted); one outside the parser's name_regexp (`/y`, `a b`)
+    gives a DDS pydap cannot parse (DESIGN 9 #20): outside the property's domain, observed and counted only"""
+    import re
+    global DIM_RE
+    DIM_RE = DIM_RE or re.compile(r'[A-Za-z0-9_%!~"\'\*-]+\Z')
+    if spec[0] == "b":
+        return all(DIM_RE.match(d) for d in spec[4])
+    return all(dims_parseable(k) for k in spec[2])
+
+
 def in_domain(spec, depth_seq=0):
     """the property's trees: dims absent or one per declared extent; sequence members are columns"""
     kind = spec[0]
     if kind == "b":
-        declared = len(spec[3]) - depth_seq
-        return declared >= 0 and (not spec[4] or len(spec[4]) == declared) and not (depth_seq and declared)
+        declared = max(len(spec[3]) - depth_seq, 0)
+        return (not spec[4] or len(spec[4]) == declared) and not (depth_seq and declared)
     d = depth_seq + (1 if kind == "sq" else 0)
     return all(in_domain(k, d) for k in spec[2])
 
@@ -329,6 +343,101 @@ def render_foreign(rng, toks):
     return "".join(out)
 
 
+# ---------------------------------------------------------------------------------------------------
+# decorated foreign trees for the Lean foreign-style printer (`ftextDs`, the printer of theorem C07_foreign)
+WS_CHARS = [" ", "\n", "\t", "\r", "\x0b", "\x0c", "\x1c", "\x1d", "\x1e", "\x1f"]
+LOWER_TYPES = {"float64": ">f8", "float32": ">f4", "int16": ">i2", "uint16": ">u2", "int32": ">i4", "uint32": ">u4",
+               "byte": "|u1", "string": "|S128", "url": "|S128", "int": ">i4", "uint": ">u4"}
+
+
+def gen_gaps(rng, n):
+    style = rng.random()
+    out = []
+    for _ in range(n):
+        if style < 0.2:
+            out.append("")
+        elif style < 0.5:
+            out.append(rng.choice(["", " ", "\n", "\n    "]))
+        else:
+            out.append("".join(rng.choice(WS_CHARS) for _ in range(rng.randint(0, 3))))
+    return out
+
+
+def gs_sexp(gs):
+    return "(" + " ".join(hexb(g.encode()) for g in gs) + ")"
+
+
+def gen_fds(rng):
+    """returns (sexp for the driver, declared view) of a decorated foreign dataset"""
+    def name(used):
+        for _ in range(30):
+            s = "".join(rng.choice(IDENT + DIM_EXTRA) for _ in range(rng.randint(1, 5)))
+            if s not in used and "dap4" not in s.lower():
+                used.add(s)
+                return s
+        raise RuntimeError
+
+    def fbase(used):
+        t = rng.choice(list(LOWER_TYPES))
+        n = name(used)
+        dims = []
+        for _ in range(rng.choice([0, 1, 1, 2, 3])):
+            dims.append((gen_dim(rng) if rng.random() < 0.5 else None, gen_extent(rng)))
+        sx = "(fb %s %s (%s) %s)" % (tx(rnd_case(rng, t)), tx(n),
+                                     " ".join("(%s %d)" % ("none" if d is None else tx(d), e) for d, e in dims),
+                                     gs_sexp(gen_gaps(rng, 7)))
+        return sx, ("b", n, LOWER_TYPES[t], tuple(e for _, e in dims), tuple(d for d, _ in dims if d is not None))
+
+    def decl(depth, used):
+        r = rng.random()
+        if depth >= 4 or r < 0.5:
+            return fbase(used)
+        if r < 0.65:
+            inner = set()
+            arr, va = fbase(inner)
+            maps = [fbase(inner) for _ in range(rng.randint(0, 3))]
+            n = name(used)
+            sx = "(fg %s %s %s %s %s %s (%s))" % (tx(rnd_case(rng, "grid")), tx(rnd_case(rng, "array")),
+                                                 tx(rnd_case(rng, "maps")), tx(n), gs_sexp(gen_gaps(rng, 8)), arr,
+                                                 " ".join(m for m, _ in maps))
+            return sx, ("g", n, [va] + [v for _, v in maps])
+        is_seq = rng.random() < 0.4
+        inner = set()
+        kids = [decl(depth + 1, inner) for _ in range(rng.randint(0, 3))]
+        n = name(used)
+        sx = "(fc %d %s %s %s (%s))" % (1 if is_seq else 0, tx(rnd_case(rng, "sequence" if is_seq else "structure")),
+                                        tx(n), gs_sexp(gen_gaps(rng, 4)), " ".join(k for k, _ in kids))
+        return sx, ("sq" if is_seq else "st", n, [v for _, v in kids])
+
+    used = set()
+    kids = [decl(1, used) for _ in range(rng.randint(0, 4))]
+    n = name(set())
+    sx = "(fds %s %s %s (%s))" % (tx(rnd_case(rng, "dataset")), tx(n), gs_sexp(gen_gaps(rng, 4)),
+                                  " ".join(k for k, _ in kids))
+    return sx, ("ds", n, [v for _, v in kids])
+
+
+def check_lean_foreign(ctx, P, rng, n, cases):
+    """texts printed by the Lean foreign-style printer, parsed by the real parser, judged against the declared
+    structure (this is theorem C07_foreign, run on the implementation)"""
+    specs = [gen_fds(rng) for _ in range(n)]
+    texts = common.run_driver(["dds-fprint " + sx for sx, _ in specs])
+    for (sx, view), hx in zip(specs, texts):
+        text = bytes.fromhex(hx[1:]).decode("latin-1")
+        d, dump = impl_parse(P, text)
+        cases.append(("dds-fdecl " + sx, dump, {"text": text}))
+        cases.append(("dds-parse " + hexb(text.encode("latin-1")), dump, {"text": text}))
+        case = {"kind": "foreign", "text": text, "declared": view}
+        ctx.count(("lean-foreign", text), True, tag="foreign:lean-printer", sample={"foreign(lean)": text[:200]})
+        if d is None:
+            ctx.oracle_fail("foreign-style DDS does not parse", case, dump, repr(view), size=len(text))
+            continue
+        got = norm_dt(parsed_view(P, d))
+        if got != norm_dt(view):
+            ctx.oracle_fail("foreign-style DDS parses to a different structure than it declares", case, repr(got),
+                            repr(norm_dt(view)), size=len(text))
+
+
 def mutate(rng, text):
     if not text:
         return text
@@ -367,7 +476,12 @@ def check_tree(ctx, P, spec, cases, where):
     cases.append(("dds-print " + src, hexb(text.encode()), {"spec": spec, "text": text}))
     d2, dump2 = impl_parse(P, text)
     cases.append(("dds-parse " + hexb(text.encode()), dump2, {"text": text}))
-    cases.append(("dds-norm " + src, dump2, {"spec": spec, "text": text}))
+    if dims_parseable(spec):      # `norm` is what a *well-formed* tree parses to (theorem C07_parse_print)
+        cases.append(("dds-norm " + src, dump2, {"spec": spec, "text": text}))
+    if not dims_parseable(spec):
+        ctx.count(("outside", src), False, tag="outside:dimension-name-not-in-name_regexp:" +
+                  ("parses" if d2 is not None else "does-not-parse"))
+        return
     cls = FINDING_SEQ_ARRAY if in_seq_array_class(spec) else None
     dom = in_domain(spec)
     ctx.count(("tree", src), True, tag=where + (":domain" if dom else ":seq-array" if cls else ":odd"),
@@ -414,7 +528,7 @@ def explore(ctx, tier, search=False):
     P = load()
     cases = []
     rng = ctx.rng("trees")
-    n = ctx.budget(1500, 30000) if not search else 6000
+    n = ctx.budget(6000, 60000) if not search else 12000
     for i in range(n):
         mode = "domain" if rng.random() < 0.8 else "odd"
         check_tree(ctx, P, gen_dataset(rng, mode), cases, mode)
@@ -424,16 +538,17 @@ def explore(ctx, tier, search=False):
     cases = []
     rngf = ctx.rng("foreign")
     texts = []
-    for i in range(ctx.budget(800, 15000)):
+    for i in range(ctx.budget(3000, 30000)):
         t = check_foreign(ctx, P, rngf, cases)
         if t:
             texts.append(t)
+    check_lean_foreign(ctx, P, ctx.rng("lean-foreign"), ctx.budget(2500, 25000), cases)
     ctx.correspond("dds_to_dataset on foreign-style texts", cases)
     # malformed stream: error classes / accepted trees must agree
     cases = []
     rngm = ctx.rng("malformed")
-    pool = texts[:400] + MALFORMED
-    for i in range(ctx.budget(1500, 30000)):
+    pool = texts[:1500] + MALFORMED
+    for i in range(ctx.budget(6000, 60000)):
         base = rngm.choice(pool)
         text = base if base in MALFORMED and rngm.random() < 0.5 else mutate(rngm, base)
         if not ascii_ok(text) or not model_scope(text):
@@ -483,6 +598,9 @@ FIXED_TREES = [
                                  ("b", "y", "d", (3,), ("y",))])]),
     ("ds", "e", []),
     ("ds", "x", [("b", "v", "d", (2, 3), ("x",))]),
+    ("ds", "x", [("b", "v", "d", (4,), ("/y",))]),
+    ("ds", "x", [("b", "v", "d", (4, 2), ("a b", "c"))]),
+    ("ds", "x", [("g", "g", [("b", "a", "d", (2,), ("lat[",)), ("b", "lat[", "d", (2,), ())])]),
 ]
 
 
